@@ -176,6 +176,7 @@ type branchOut struct {
 	cur   string
 	st    *State
 	res   []string
+	note  string
 }
 
 // mergeBranches joins the outcomes of mutually exclusive guarded branches.
@@ -291,7 +292,7 @@ func (vc *VC) dynamicCall(com *ssa.CallCommon, d *callDesc) []string {
 	vc.cur = vc.define("R", "Bool", fmt.Sprintf("(and %s %s)", baseCur, none))
 	if !vc.feasible() {
 		if len(outs) > 0 {
-			return vc.mergeBranches(outs, d.sig)
+			return vc.mergeOrSplit(outs, d.sig)
 		}
 		vc.cur = vc.define("R", "Bool", "false")
 		return vc.freshResults(d.sig, "fv")
@@ -301,7 +302,7 @@ func (vc *VC) dynamicCall(com *ssa.CallCommon, d *callDesc) []string {
 		vc.oblige("fvtargets", "assert", fmt.Sprintf("function value called at %s denotes one of the declared targets", vc.pos()), "false", nil)
 		vc.assume("false")
 		if len(outs) > 0 {
-			return vc.mergeBranches(outs, d.sig)
+			return vc.mergeOrSplit(outs, d.sig)
 		}
 	}
 	if len(cands) == 0 {
@@ -309,7 +310,17 @@ func (vc *VC) dynamicCall(com *ssa.CallCommon, d *callDesc) []string {
 	}
 	vc.havocAll()
 	outs = append(outs, branchOut{guard: none, cur: vc.cur, st: vc.st, res: vc.freshResults(d.sig, "fv")})
-	return vc.mergeBranches(outs, d.sig)
+	return vc.mergeOrSplit(outs, d.sig)
+}
+
+// mergeOrSplit hands several outcomes to the caller for per-path continuation when that is allowed,
+// and merges them otherwise.
+func (vc *VC) mergeOrSplit(outs []branchOut, sig *types.Signature) []string {
+	if vc.splitOK && len(outs) > 1 && len(outs) <= 12 {
+		vc.pending = outs
+		return outs[0].res
+	}
+	return vc.mergeBranches(outs, sig)
 }
 
 // invokeCandidates: an interface method call without a contract on the interface method is resolved
@@ -369,12 +380,12 @@ func (vc *VC) invokeCandidates(d *callDesc, impls []implTarget) []string {
 	}
 	vc.cur = vc.define("R", "Bool", fmt.Sprintf("(and %s %s)", baseCur, none))
 	if !vc.feasible() && len(outs) > 0 {
-		return vc.mergeBranches(outs, d.sig)
+		return vc.mergeOrSplit(outs, d.sig)
 	}
 	vc.r().uncontracted[d.key+" (unknown dynamic type)"] = true
 	vc.havocAll()
 	outs = append(outs, branchOut{guard: none, cur: vc.cur, st: vc.st, res: vc.freshResults(d.sig, "im")})
-	return vc.mergeBranches(outs, d.sig)
+	return vc.mergeOrSplit(outs, d.sig)
 }
 
 // inline translates a loop-free module callee without a contract in place.
@@ -419,9 +430,16 @@ func (vc *VC) inline(d *callDesc) ([]string, bool) {
 	}
 	ch.cur, ch.st = vc.cur, vc.st.clone()
 	vc.r().inlined[funcKey(fn)] = true
-	for _, b := range ch.rpo() {
+	var collected []inlRet
+	ch.retsP = &collected
+	ch.order = ch.rpo()
+	for _, b := range ch.order {
 		ch.block(b)
+		if ch.done {
+			break
+		}
 	}
+	ch.rets = collected
 	if len(ch.rets) == 0 {
 		// callee never returns normally (always panics)
 		vc.cur = vc.define("R", "Bool", "false")
@@ -433,7 +451,7 @@ func (vc *VC) inline(d *callDesc) ([]string, bool) {
 		for _, tv := range r.res {
 			res = append(res, tv.T)
 		}
-		outs = append(outs, branchOut{guard: r.cur, cur: r.cur, st: r.st, res: res})
+		outs = append(outs, branchOut{guard: r.cur, cur: r.cur, st: r.st, res: res, note: r.note})
 	}
 	if vc.splitOK && len(outs) > 1 && len(outs) <= 12 {
 		// tail position: let the caller continue once per return path
